@@ -222,6 +222,16 @@ Theorem C09_encode_dict_accepted : forall (data : list (string * value)) (t : Z)
 Proof. exact encode_dict_accepted. Qed.
 Print Assumptions C09_encode_dict_accepted.
 
+(* The str -> bytes step between the two APIs: encode_dict / encode_msg return str, decode() encodes every str argument
+   as UTF-8 first.  Every character the encoder model writes is ASCII, where that encoding is the identity on codes --
+   which is why the statements above hand the character lists to the decoder model unchanged. *)
+Theorem C09_frame_ascii : forall (p talker channel : list Z) (fill : Z) ss,
+  (talker = frm_AIVDM \/ talker = frm_AIVDO) -> (channel = [65] \/ channel = [66]) ->
+  Forall (fun c => fs_armor_alphabet c = true) p -> (1 <= length p)%nat ->
+  ais_to_nmea_0183 p talker channel fill = Ok ss -> Forall (Forall (fun c => 0 <= c < 128)) ss.
+Proof. exact frame_ascii. Qed.
+Print Assumptions C09_frame_ascii.
+
 (* non-vacuity: the 424 bits of a real type 5 message (71 characters, 2 fill bits) satisfy the hypotheses; the encoder
    model frames them as two sentences
        !AIVDO,2,1,0,B,538CQ>02A;h?D9QC800pu8@T>0P4l9E8L0000017Ah:;;5r50Ahm5;C0F@V@,0*17
